@@ -242,6 +242,10 @@ func minSize(t reflect.Type) int {
 		return 10
 	case tWorkExecResult, tTicketsOrKeys, tOperandOrXfer, tStorage, tMetaCode:
 		return 1
+	case tWorkReport: // spec 102 + context 133 + compact core + hash 32 + compact gas + 3 empty sequences
+		return 102 + 133 + 1 + 32 + 1 + 1 + 1 + 1
+	case tOperand:
+		return 128 + 1 + 1 + 1
 	case tBitfield:
 		return types.AvailBitfieldBytes
 	}
